@@ -9,6 +9,8 @@ import Varlink.JsonWF
 import VarlinkProofs.Lemmas.Frame
 import VarlinkProofs.Lemmas.Json
 import VarlinkProofs.Lemmas.WireWf
+import Varlink.Extracted.Code
+import Varlink.ExpectedCode
 namespace Varlink.C02
 open Varlink
 
@@ -142,5 +144,11 @@ example : optNumsOk (some (.obj (.cons (str "s") (.str [0, 34, 0xF0, 0x9F, 0x98,
     optDepth (some (.obj (.cons (str "s") (.str [0, 34, 0xF0, 0x9F, 0x98, 0x80, 10]) .nil))) < maxDepth := by decide
 example : nulCount [1, 0, 2, 0, 3] = 2 := by decide
 example : splitOnNul [1, 0, 2, 0, 3] = ([[1], [2]], [3]) := by decide
+
+/-- **Tie to the source**: the declarations of /repo that this property's model transliterates
+    (`Extracted.codeNames_C02`) have, in the current working tree, exactly the fingerprints of the code the
+    model was validated against. Any change to them breaks this obligation; the check then searches the
+    correspondence streams for an input on which the changed code violates the property. -/
+theorem modelled_code_unchanged : Varlink.Extracted.code_C02 = Varlink.ExpectedCode.code_C02 := by decide
 
 end Varlink.C02
